@@ -30,7 +30,8 @@ func main() {
 		"part C: predicates on all ordered pairs of a type sample (hand-picked compiled types incl. twin named structs and named/unnamed pointer, slice, array, map, chan, func types over them); part D: PRNG construction histories over term ids; "+
 		"part E: PRNG families of declared types (3..6 structs embedding earlier ones by value or pointer, 1..2 diamonds = one type reached through two embedded fields at equal depth 2..4 - or unequal depth - by value or pointer, skewed embeddings, twins = distinct named types with identical underlying types (also up to tags), named and aliased pointer/slice/array/map/chan/func/struct composites over them, named basics, methods with value/pointer receivers) declared in a gomacro interpreter and type-checked by the toolchain's go/types: "+
 		"FieldByName/MethodByName of every struct x every pool name (twice) against go/types.LookupFieldOrMethod, Identical/AssignableTo/ConvertibleTo/Comparable of the fork's go/types and of xreflect on every ordered pair against the toolchain's go/types (xreflect Assignable/Convertible only where its reflect shortcut does not fire: known class C29-K1). "+
-		"A case is one type (A,B), one ordered pair (C) or one history (D); non-trivial = composite kind (A,B), pair of different types (C), history with a repeated term (D); distinct by SHA-256 of the canonical type text")
+		"part F: ~290 named types declared in the harness' own package main (no importer knows them: method sets come from the reflect scan only) = 9 underlying kinds (int,string,float64,slice,array,map,func,chan,struct) x receiver pattern (pointer receivers only / value receivers only / mixed) x first access path (by value, as field / nested field / slice, array, chan, map element / map key / parameter / result of an unnamed composite, through *T first), inspected like part A; "+
+		"A case is one type (A,B,F), one ordered pair (C) or one history (D); non-trivial = composite kind (A,B), pair of different types (C), history with a repeated term (D); distinct by SHA-256 of the canonical type text")
 	wd := vh.NewWatchdog(rep, 180*time.Second)
 	wd.Beat("setup: go list -export")
 	t0 := time.Now()
@@ -88,6 +89,16 @@ func main() {
 	rep.Extra["partA_roots"] = roots
 	rep.Extra["partA_types"] = h.stats["types"]
 	rep.Extra["partA_s"] = time.Since(t0).Seconds()
+
+	// ---------------- part F (local.go): named types of this binary's package main, unknown to the importer, first met by value / as component / by pointer
+	nloc := h.stats["types"]
+	for _, rt := range localRoots() {
+		o := "local:" + printR(rt)
+		h.enqueue(rt, h.from(rt, o), o)
+		h.drain()
+	}
+	rep.Extra["partF_types"] = h.stats["types"] - nloc
+	rep.Extra["partF_s"] = time.Since(t0).Seconds()
 
 	// ---------------- part B
 	h.partB(rng)
